@@ -97,6 +97,11 @@ claim('C06', 'Hypothesis directions (random / low-rank / non-PSD Hermitian / ent
       'pushed through the outer tests; SDP boundary lengths are computed in generated orders of (k, PPT, bosonic) calls from a clean memo and compared with each other, with analytic values and with themselves after other calls.',
       'trusted: SDP solver accuracy ~1e-5 (orderings judged at 1e-4; feasibility test has ~1% slack, judged at 5%); CHA SolverError inconclusive; quick tier k<=2 beyond two qubits')
 
+claim('C04', 'Hypothesis circuit programs (shared / controlled / placeholder / custom / frozen parameters, mixed trainable+placeholder names), Knill-Laflamme op sequences with overlapping factors, PSD spectra classes incl. exactly degenerate and near-deficient, losses built on the custom operators, flat-parameter bridge models; oracle: central finite differences (2nd order, 5-point stencil for matrix functions) of the forward value, forward values against dense references',
+      'Every hand-written backward pass (circuit reverse sweep, controlled gates, KL inner product, PSD sqrtm, repeated sqrtm, Pade logm) and the losses and the scipy bridge built on them are differentiated '
+      'at generated parameter points and compared with finite differences of their own forward value, whose correctness is tied to dense references (C03 oracle, eigen-decomposition).',
+      'trusted: finite differences with step 1e-5 (5e-5 five-point) at tolerance 1e-6*max(1,|g|); exactly rank-deficient PSD inputs outside the claim; kind="custom" gates need user grad_backward (outside)')
+
 NOT_YET = 'check not built yet in this session (work in progress; see DESIGN.md section 4 for the planned generator and oracle)'
 
 ALL = [f'C{i:02d}' for i in range(1, 21)]
